@@ -90,6 +90,7 @@ class OrthogonalRegression(MultiOutputMixin, RegressorMixin):
                 @ Vt
             ).T
         else:
+            y = y.reshape(X.shape[0], -1)
             self.max_components_ = max(X.shape[1], y.shape[1])
             X = np.pad(X, [(0, 0), (0, self.max_components_ - X.shape[1])])
             y = np.pad(y, [(0, 0), (0, self.max_components_ - y.shape[1])])
